@@ -14,7 +14,8 @@ Proof. reflexivity. Qed.
 
 (* building the PDUs of ANY constructor-valid SubmitSm - any text, alphabet, UDHI bit, encoding name, error handler, integer
    field, optional parameters, default alphabet, segmentation reference - ends normally or with ValueError (incl.
-   UnicodeEncodeError), struct.error, KeyError or LookupError: the classes the sender treats as build errors *)
+   UnicodeEncodeError), struct.error, KeyError or LookupError: classes the sender treats as build errors (it also treats TypeError so: codecs of
+   Python that do not turn text into octets, e.g. 'hex', raise it - those codecs are outside this model, oracle only) *)
 Theorem C06_build_errors_closed :
   forall default m ref cmd,
   ctor_ok m = true ->
@@ -57,6 +58,6 @@ Proof. exact run_queue_order. Qed.
 (* what the session does NOT survive: an exception outside the build classes in the Sender task *)
 Example C06_what_would_escape :
   build_caught EXN_StructError = true /\ build_caught EXN_KeyError = true /\ build_caught EXN_LookupError = true
-  /\ build_caught EXN_UnicodeEncodeError = true /\ build_caught EXN_AttributeError = false /\ build_caught EXN_TypeError = false
+  /\ build_caught EXN_UnicodeEncodeError = true /\ build_caught EXN_TypeError = true /\ build_caught EXN_AttributeError = false
   /\ build_caught EXN_ConnectionError = false.
 Proof. vm_compute. repeat split; reflexivity. Qed.
